@@ -467,6 +467,15 @@ func (api *HTTP) sessionOrProxy(w http.ResponseWriter, r *http.Request, sessionI
 		return sessionid, err
 	}
 
+	if err == ircserver.ErrSessionNotYetSeen {
+		// This node is the leader, but its state machine has not yet applied
+		// the message which creates the session (e.g. while it replays its
+		// log after a restart). Clients give up their session on a 404, so
+		// tell them to retry instead, like handleGetMessages does.
+		http.Error(w, err.Error(), http.StatusInternalServerError)
+		return sessionid, err
+	}
+
 	if err != nil {
 		http.Error(w, err.Error(), http.StatusNotFound)
 	}
